@@ -1,5 +1,6 @@
 import FiberModel.DriverUtil
 import FiberModel.C08.Known
+import FiberModel.C08.Fragment
 /-
 Driver for C08. Case fields (after the id):   tree  req  mode  err  |  outcomes
 (formats: see harness/cmd/c08/main.go).
@@ -10,10 +11,17 @@ observation (`chain=`, recorded by the outermost middleware; `srv=`/`path=`, rec
 around `app.Server().ErrorHandler`); routing itself is C01's. modelObs = the single outcome the
 model's funnel produces for that input; implObs = the set of distinct outcomes the real code
 produced over all evaluations of the case (so any order dependence is an M=DIFF *and* an S=FAIL).
-Domain (rejected otherwise): prefixes from letters, digits, `/ - _ .` and whole-segment parameters
-`:name`; appList keys pairwise different as the router tells mounts apart (`normKey`).
-K=K1 exactly when the case lies in `Known.K1` (the designated app sits under a parameterised prefix
-the path does not spell out) and the failing clause is the scope clause.
+Domain (rejected otherwise): prefixes from letters, digits, `/ - _ .` and the characters of fiber's
+route syntax (`: * + ? \ < > ( ) , ;`); a prefix that is a route pattern must parse (`parseKey`) and
+its constraints must be ones the C02 model decides itself (no regex / datetime / custom); appList
+keys pairwise different once the leading slash is added (`slashKey`).
+Reading of pattern prefixes in the oracle: when every pattern key of the table lies in the tokens
+fragment (`TokenKey`, Fragment.lean: whole-segment `:name`, no trailing slash — the executable test
+that is the hypothesis of `Props.select_eq_spec`) the oracle uses the tokens reading `coversPat`
+(written from scratch in Spec) and the router's reading `coversRouter` must designate the same
+handler (else S=FAIL `reading:`); otherwise the router's reading (fiber's RoutePatternMatch, the C02
+model of it).
+No known finding is open: K is never set.
 -/
 open B DriverUtil C04 C08
 
@@ -56,18 +64,23 @@ partial def parseNodes (toks : List String) (depth : Nat) : Except String (List 
 def plainByte (c : Nat) : Bool :=
   isLower c || isUpper c || isDigit c || c == 47 || c == 45 || c == 95 || c == 46
 
-/-- a prefix of the spec's pattern language: plain bytes, and `:` only at the start of a segment,
-followed by a non-empty name -/
-def patternOk : Bool → Bytes → Bool
-  | _, [] => true
-  | atStart, c :: t =>
-    if c == 58 then atStart && (match t with | [] => false | d :: _ => d != 47 && plainByte d) && patternOk false t
-    else plainByte c && patternOk (c == 47) t
+def syntaxByte (c : Nat) : Bool :=
+  plainByte c || [58, 42, 43, 63, 92, 60, 62, 40, 41, 44, 59].contains c
 
-mutual
-partial def nodeLiteral : Node → Bool
-  | .mk gps p _ ch => patternOk true p && gps.all (patternOk true) && ch.all nodeLiteral
-end
+def abs0 : C02.Constraint → Bytes → Bool := fun _ _ => true
+def chk0 : C02.Constraint → Bytes → Bool := C02.checkConstraint [] abs0
+
+/-- a key of the modelled domain -/
+def keyOk (cfg : Cfg) (k : Bytes) : Bool :=
+  k.all syntaxByte &&
+  (!isPatternKey k ||
+    match parseKey cfg k with
+    | none => false
+    | some segs =>
+      (segs.all fun sg => sg.constraints.all fun c => c.id != .regex && c.id != .datetime && c.id != .noC) &&
+      -- a key that only escapes characters (declares no parameter) must not end in a slash: fiber's
+      -- RoutePatternMatch compares such a pattern literally, the mount's parser lets the slash be optional
+      (segs.any (·.isParam) || (mountedAt k).getLast? != some 47))
 
 def parseErr (s : String) : Option Err :=
   match s.splitOn ":" with
@@ -86,19 +99,38 @@ def parseCalls (calls : String) : Option (List (Nat × Nat)) :=
     | _ => none
   if calls == "-" then some [] else (calls.splitOn ".").mapM parseCall
 
-/-- one evaluation of a chain mode -/
-def parseSeen (s : String) : Option Seen := do
+/-- what came back to a logger: who, the error, c.Path() -/
+structure HopSeen where
+  who : String
+  err : Option Err
+  path : Bytes
+
+def parseHop (s : String) : Option HopSeen :=
+  match s.splitOn "~" with
+  | [w, e, p] => do
+    let p ← fromHex p
+    if e == "none" then pure ⟨w, none, p⟩ else pure ⟨w, some (← parseErr e), p⟩
+  | _ => none
+
+/-- one evaluation of a chain mode: (c.Path() when the chain came back to the outermost middleware,
+what came back to the loggers (innermost first), the rest — `chain` = what came back to the
+outermost middleware) -/
+def parseSeen (s : String) : Option (Option Bytes × List HopSeen × Seen) := do
   let kv := kvOf s
   let get (k : String) : Option String := (kv.find? (·.1 == k)).map (·.2)
   let ch ← get "chain"
   let calls ← parseCalls (← get "calls")
-  if ch == "none" then
-    pure ⟨none, calls, 0, []⟩
+  let hops ← match get "hops" with
+    | none => pure []
+    | some h => (h.splitOn "/").mapM parseHop
+  if ch == "none" && hops.all (·.err.isNone) then
+    pure (none, hops, ⟨none, calls, 0, []⟩)
   else
-    let e ← parseErr ch
+    let e ← if ch == "none" then pure none else (parseErr ch).map some
+    let fp ← fromHex (← get "fpath")
     let st ← (← get "status").toNat?
     let body ← fromHex (← get "body")
-    pure ⟨some e, calls, st, body⟩
+    pure (some fp, hops, ⟨e, calls, st, body⟩)
 
 def parseSrvErr (s : String) : Option SrvErr :=
   match s.splitOn ":" with
@@ -135,10 +167,15 @@ def renderCalls (o : Outcome) : String :=
   let cs := customCalls o
   if cs.isEmpty then "-" else ".".intercalate (cs.map fun (i, n) => s!"{i}x{n}")
 
-def renderOutcome (chain : Option Err) (o : Option Outcome) : String :=
-  match chain, o with
-  | some e, some o => s!"chain={renderErr e};calls={renderCalls o};status={o.status};body={toHexField o.body}"
-  | _, _ => "chain=none;calls=-"
+def renderHops (hops : List (String × Option Err × Bytes)) : String :=
+  if hops.isEmpty then "" else
+    ";hops=" ++ "/".intercalate (hops.map fun (w, e, p) =>
+      s!"{w}~{match e with | some e => renderErr e | none => "none"}~{toHexField p}")
+
+def renderOutcome (chain : Option Err) (fpath : Bytes) (hops : List (String × Option Err × Bytes)) (o : Option Outcome) : String :=
+  match o with
+  | some o => s!"chain={match chain with | some e => renderErr e | none => "none"};fpath={toHexField fpath}{renderHops hops};calls={renderCalls o};status={o.status};body={toHexField o.body}"
+  | none => s!"chain=none{renderHops hops};calls=-"
 
 def bit (x : Bool) : String := if x then "1" else "0"
 
@@ -153,6 +190,8 @@ structure Mode where
   custom : Bool
   cs : Bool
   strict : Bool
+  unesc : Bool
+  ov : Option Bytes
 
 def parseMode (s : String) : Except String Mode := do
   match s.splitOn "+" with
@@ -162,10 +201,21 @@ def parseMode (s : String) : Except String Mode := do
     let okBase := ["mw", "chain", "srv"].contains base ||
       ((base.startsWith "sub" || base.startsWith "net") && isNum ((base.drop 3).toString))
     if !okBase then throw "outside-domain: mode"
-    if !(fl.all fun x => ["custom", "cs", "strict", "subcs"].contains x) then throw "outside-domain: mode flag"
-    if fl.eraseDups.length != fl.length then throw "outside-domain: mode flag twice"
+    let ovs := fl.filter (·.startsWith "ov")
+    let fl' := fl.filter (!·.startsWith "ov")
+    if !(fl'.all fun x => ["custom", "cs", "strict", "subcs", "unesc", "log", "logskip", "sublog", "sublogskip"].contains x) then
+      throw "outside-domain: mode flag"
+    if (fl.contains "log" && fl.contains "logskip") || (fl.contains "sublog" && fl.contains "sublogskip") then
+      throw "outside-domain: two loggers at one place"
+    if fl.eraseDups.length != fl.length || ovs.length > 1 then throw "outside-domain: mode flag twice"
     let kind := if base.startsWith "sub" then "sub" else if base.startsWith "net" then "net" else base
-    pure ⟨kind, fl.contains "custom", fl.contains "cs", fl.contains "strict"⟩
+    let ov ← match ovs with
+      | [] => pure none
+      | o :: _ => match fromHex (o.drop 2).toString with
+        | some p => if p.head? == some 47 then pure (some p) else throw "outside-domain: override"
+        | none => throw "outside-domain: override"
+    if ov.isSome && (kind == "srv" || kind == "net") then throw "outside-domain: override in a server mode"
+    pure ⟨kind, fl.contains "custom", fl.contains "cs", fl.contains "strict", fl.contains "unesc", ov⟩
 
 def handleCase (f : List String) : Except String Verdict := do
   match f with
@@ -174,20 +224,29 @@ def handleCase (f : List String) : Except String Verdict := do
     let rootOwn ← parseOwn (toks.headD "?")
     let (nodes, rest) ← parseNodes toks.tail 0
     if !rest.isEmpty then throw "outside-domain: trailing tokens"
-    if !(nodes.all nodeLiteral) then throw "outside-domain: prefix outside the pattern language"
     let reqPath ← match req.splitOn ":" with
       | [_, p] => match fromHex p with
         | some p => pure p | none => throw "outside-domain: path"
       | _ => throw "outside-domain: req"
-    if reqPath.head? != some 47 || (reqPath.drop 1).head? == some 47 ||
-        !(reqPath.all fun c => plainByte c || c == 58) then throw "outside-domain: path"
+    let pathByte (c : Nat) : Bool := plainByte c || c == 58 || c == 42 || c == 43 || c == 32
     let md ← parseMode mode
+    if reqPath.head? != some 47 || (reqPath.drop 1).head? == some 47 ||
+        !(reqPath.all fun c => pathByte c || (md.unesc && c == 37)) then throw "outside-domain: path"
+    -- ctx.go configDependentPaths: ctx.Path() of a fresh context
+    let ctxPath (raw : Bytes) : Bytes := if md.unesc then C02.unquote raw else raw
+    if (ctxPath reqPath).head? != some 47 || !((ctxPath reqPath).all pathByte) then throw "outside-domain: decoded path"
+    if !((md.ov.getD []).all pathByte) || !((ctxPath (md.ov.getD [47])).all pathByte) || (ctxPath (md.ov.getD [47])).head? != some 47 then
+      throw "outside-domain: override"
     let server := md.base == "srv" || md.base == "net"
     if (err.startsWith "S:") != (md.base == "srv") then throw "outside-domain: err kind does not fit the mode"
     let cfg : Cfg := ⟨md.cs, md.strict⟩
     let l := appList rootOwn nodes
-    let keys := l.map fun m => normKey cfg m.pre
-    if keys.eraseDups.length != keys.length then throw "outside-domain: two apps at the same mount point"
+    let keys := l.map fun m => slashKey m.pre
+    if keys.eraseDups.length != keys.length then throw "outside-domain: two apps registered under the same route"
+    if !(l.all fun m => keyOk cfg m.pre) then throw "outside-domain: prefix outside the modelled pattern language"
+    let pats := l.filter fun m => isPattern m.pre
+    let tokens := pats.all fun m => TokenKey cfg m.pre
+    let cov : Cover := if tokens then coversPat cfg else coversRouter chk0 cfg
     let outs := outcomes.splitOn "|"
     if outs.contains "panic" then
       return { id := id, modelObs := "no-panic", implObs := outcomes,
@@ -198,10 +257,12 @@ def handleCase (f : List String) : Except String Verdict := do
         let seen := outs.filterMap parseSrvSeen
         if seen.length != outs.length then throw "outside-domain: unparsable outcome"
         let first := (seen.head?).bind (·.1)
-        let path := match first with | some (_, p) => p | none => reqPath
-        if md.base == "srv" && path != reqPath then throw "outside-domain: context path differs from the request path"
+        let rawPath := match first with | some (_, p) => p | none => reqPath
+        if md.base == "srv" && rawPath != reqPath then throw "outside-domain: context path differs from the request path"
+        let path := ctxPath rawPath
+        if path.head? != some 47 || !(path.all pathByte) then throw "outside-domain: context path"
         let model := match first with
-          | some (e, p) => renderSrvOutcome first (serverFunnel cfg l rootOwn p e)
+          | some (e, _) => renderSrvOutcome first (serverFunnel chk0 cfg l rootOwn path e)
           | none => renderSrvOutcome none none
         let tag := match first with
           | some (e, _) => (match mapServerErr e with | .fiber c _ => s!"srv-{c}" | .plain _ => "srv-plain")
@@ -210,30 +271,65 @@ def handleCase (f : List String) : Except String Verdict := do
       else do
         let seen := outs.filterMap parseSeen
         if seen.length != outs.length then throw "outside-domain: unparsable outcome"
-        let chain := (seen.head?).bind (·.chain)
+        let chain := (seen.head?).bind (·.2.2.chain)
+        let hops := match seen.head? with | some x => x.2.1 | none => []
+        -- the path the funnel judges: ctx.Path() of the request, or the override if the failing
+        -- handler made it (whether that handler ran is routing, read from the observation like `chain`)
+        let seenPath := (seen.head?).bind (·.1)
+        -- ctx.go Path(override): `c.pathOriginal = override; c.configDependentPaths()` - the override is
+        -- percent-decoded like a request path
+        let path := match md.ov, seenPath with
+          | some o, some f => if f == ctxPath o then ctxPath o else ctxPath reqPath
+          | _, _ => ctxPath reqPath
         let tag := match chain with | none => "no-error" | some (.fiber c _) => s!"fiber-{c}" | some (.plain _) => "plain-error"
-        pure (reqPath, renderOutcome chain (funnel cfg l rootOwn reqPath chain), seen, tag)
-    let spec := specViolation cfg l rootOwn path seen
-    let inK1 := Known.K1 cfg l path
-    let known := match spec with
-      | some c => if inK1 && c.startsWith "scope/exactly-once:" then some "K1" else none
-      | none => none
-    let cands := candidates cfg l path
-    let lits := cands.filter fun m => contains cfg m.pre path
+        let tag := if md.ov.isSome && seenPath == md.ov.map ctxPath && path != ctxPath reqPath then tag ++ ",nt-path-overridden" else tag
+        -- where the error first shows: at a logger (it delivers and swallows) or at the outermost middleware
+        let lead := hops.takeWhile (·.err.isNone)
+        let rest := hops.drop lead.length
+        let origin := match rest with | h :: _ => h.err | [] => chain
+        let outcome := request chk0 cfg l rootOwn (rest.map fun _ => path) path origin
+        let hopsM : List (String × Option Err × Bytes) :=
+          lead.map (fun h => (h.who, none, path)) ++
+          (match rest with
+           | h :: t => (h.who, origin, path) :: t.map (fun x => (x.who, none, path))
+           | [] => [])
+        let chainM := if rest.isEmpty then chain else none
+        let tag := if !rest.isEmpty then tag ++ ",nt-delivered-by-logger" else if !hops.isEmpty then tag ++ ",logger-in-chain" else tag
+        let tag := match origin, chain with
+          | some (.fiber c _), none => tag ++ s!",fiber-{c}"
+          | some (.plain _), none => tag ++ ",plain-error"
+          | _, _ => tag
+        pure (path, renderOutcome chainM path hopsM outcome, seen.map (fun x => { x.2.2 with chain := origin }), tag)
+    let spec := match specViolation cfg cov l rootOwn path seen with
+      | some c => some c
+      | none =>
+        if tokens && !pats.isEmpty && selectSpec cfg (coversRouter chk0 cfg) l path != selectSpec cfg cov l path then
+          some "reading: the tokens reading and the router's reading of the mount prefixes designate different handlers"
+        else none
+    let inK1 := Known.K1 cfg cov l path
+    let known : Option String := none
+    let cands := candidates cfg cov l path
+    let lits := cands.filter fun m => !isPattern m.pre
     let hpOnly := l.filter fun m => !m.pre.isEmpty &&
       (fold cfg (mountedAt m.pre)).isPrefixOf (fold cfg path) && !contains cfg m.pre path
-    let chosen := selectSpec cfg l path
+    let chosen := selectSpec cfg cov l path
+    let top : List Mounted := match innermost cfg cov path cands with
+      | some x => cands.filter fun m => reach cfg cov path m == reach cfg cov path x
+      | none => []
     let foldOnly := lits.filter fun m => !contains ⟨true, false⟩ m.pre path
     let tags := [md.base, inTag] ++
       (if md.custom then ["custom-ctx"] else []) ++ (if md.cs then ["case-sensitive"] else []) ++
+      (if md.unesc then (if path != (match md.ov with | some o => if path == ctxPath o then o else reqPath | none => reqPath) then ["nt-unescaped-path"] else ["unescape-on"]) else []) ++
       (if cands.length ≥ 2 then ["nt-several-candidates"] else if cands.length == 1 then ["one-candidate"] else ["no-candidate"]) ++
       (if !hpOnly.isEmpty then ["nt-string-prefix-not-boundary"] else []) ++
       (if (l.filter fun m => !m.pre.isEmpty && m.own.isNone && contains cfg m.pre path).isEmpty then [] else ["nt-unconfigured-on-path"]) ++
       (if !foldOnly.isEmpty then ["nt-candidate-by-case-folding"] else []) ++
       (if (lits.filter fun m => m.pre.head? != some 47).isEmpty then [] else ["nt-candidate-key-without-slash"]) ++
       (if (lits.filter fun m => m.pre == [47]).isEmpty then [] else ["nt-mount-at-root-candidate"]) ++
-      (if cands.length > lits.length then ["nt-parameterised-candidate"] else []) ++
-      (if inK1 then ["K1-region"] else []) ++
+      (if cands.length > lits.length then ["nt-pattern-candidate"] else []) ++
+      (if top.length ≥ 2 then ["nt-tie-decided-by-prefix-order"] else []) ++
+      (if pats.isEmpty then [] else if tokens then ["reading-tokens"] else ["reading-router"]) ++
+      (if inK1 then ["former-K1-region"] else []) ++
       (match chosen, rootOwn with
         | some o, _ => if o.fails then ["mounted-handler-fails"] else ["mounted-handler"]
         | none, some _ => ["root-handler"]
